@@ -270,10 +270,20 @@ func runOne(st Stim) Trace {
 		}
 		mu.Unlock()
 		switch a.A {
-		case "tick":
+		case "tick", "tickfail":
 			at := base.Add(time.Duration(a.T)*time.Second - 50*time.Millisecond)
 			swept := make(chan struct{})
-			go func() { defer close(swept); u.cc.CheckExpirations(at) }()
+			if a.A == "tickfail" && u.failNext != nil {
+				// the copy of this tick cannot be written (a transient error of the network): the attempt is spent, the exchange goes on
+				u.failNext(1)
+			}
+			go func() {
+				defer close(swept)
+				u.cc.CheckExpirations(at)
+				if a.A == "tickfail" && u.failNext != nil {
+					u.failNext(0)
+				}
+			}()
 			select {
 			case <-swept:
 			case <-time.After(3 * time.Second): // a sweep that never returns must not hang the driver: recorded, history abandoned
